@@ -33,5 +33,6 @@ def main():
     chk.tv(groups(1200 if chk.thorough else 100, chk.seed), "C15 sweep")
     chk.assumptions += ["exact.solves compares an independently computed implicit-Euler residual (true projection) with "
                         "newton_tol*(1+1e-6) + sqrt(n)*1e-8 (the code's activity margin)"]
+    chk.replay_behaviours(num=250 if not chk.thorough else 2000)
     return chk.finish(rule="MC over all accept/reject/fail sequences of the 4 controllers with lamb_max within reach + traced "
                            "solves with injected failures and tiny lamb_max")
